@@ -100,7 +100,7 @@ class HandlerPolicy(Policy):
                 cs = const_set(s.value)
                 if cs is not None:
                     self.mod_consts[s.targets[0].id] = Const(frozenset(cs))
-                elif isinstance(s.value, (ast.Dict, ast.Call, ast.BinOp, ast.Set, ast.Tuple, ast.List)):
+                elif isinstance(s.value, (ast.Dict, ast.Call, ast.BinOp, ast.Set, ast.Tuple, ast.List, ast.DictComp, ast.SetComp, ast.ListComp)):
                     # module level lookup table (e.g. operator tables keyed by ast classes) or a set built from other constants
                     sub = Interp(Policy(program), rel)
                     env = {k: (ListV([Const(x) for x in sorted(v.v, key=repr)], "set") if isinstance(v, Const) and isinstance(v.v, frozenset) else v)
